@@ -227,6 +227,9 @@ func ruleC02(w *World, r *Report) {
 	k.validateCleanRule("C02.clean.forward")
 	// the application runs only after the keeper accepted the packet (shared with C01)
 	k.msgRecvRule("C02")
+	// a genuine packet can be accepted at all only if the verifying / peer client is chosen by
+	// the route table (shared with C11/C13)
+	k.fromTableRule("C02.from")
 	// receipts survive an export/import under the keys they were exported from (shared with C16)
 	k.genesisFieldRule("C02.genesis")
 	r.MinInstances("C02.", 18)
